@@ -35,8 +35,8 @@ func Intern(s string) int {
 	return len(interned) - 1
 }
 
-// ResetHash forgets all interned inputs.
-func ResetHash() { interned = nil }
+// ResetHash forgets all interned inputs (and the JSON model's memory).
+func ResetHash() { interned = nil; snapshots = nil; JSONValues = nil }
 
 type digest struct{ buf []byte }
 
@@ -63,13 +63,18 @@ func SHA256New() hash.Hash { return &digest{} }
 
 var snapshots []map[string]string
 
+// JSONValues are the values (other than the cache map) handed to json.Marshal, in order.
+var JSONValues []any
+
 const jsonMagic = "\x01JSON#"
 
 // JSONMarshal replaces encoding/json.Marshal for the cache map: the text stands for a snapshot.
 func JSONMarshal(v any) ([]byte, error) {
 	m, ok := v.(map[string]string)
 	if !ok {
-		return []byte(fmt.Sprintf("\x01JSONVAL#%d#", len(snapshots))), nil
+		// any other value: remembered for the harness to inspect, the text is a token
+		JSONValues = append(JSONValues, v)
+		return []byte(fmt.Sprintf("\x01JSONVAL#%d#", len(JSONValues)-1)), nil
 	}
 	cp := map[string]string{}
 	for k, val := range m {
